@@ -120,8 +120,10 @@ class Inst:
 # ====================================================================================== operators
 
 def _perm(I, nd):
+    """a non-identity permutation; mostly one that changes the trailing axis (all other operators act on trailing axes)"""
     axes = list(range(nd))
-    while axes == list(range(nd)):
+    moving = I.rng.random() < .8
+    while axes == list(range(nd)) or moving and axes[-1] == nd - 1:
         I.rng.shuffle(axes)
     return tuple(axes)
 
@@ -351,8 +353,16 @@ def build(rng, seq, dtype=float, looped=False, tries=12):
     return None
 
 
+GENERATORS = {'A': ('Mul',), 'a': ('Mul',), 'B': ('Inf',), 'b': ('Inf',)}   # the operators that create the Einsum / Assemble a theme is about
+
+
 def sequences(theme, length):
-    return [s for s in itertools.product(THEMES[theme], repeat=length)]
+    """all operator sequences of a theme; from length 3 on only those that contain a generator of the theme"""
+    seqs = itertools.product(THEMES[theme], repeat=length)
+    gen = GENERATORS.get(theme)
+    if gen and length >= 3:
+        return [s for s in seqs if any(o.startswith(gen) for o in s)]
+    return list(seqs)
 
 
 def sample_trees(rng, n):
@@ -425,7 +435,7 @@ def differential(funcs, args_list, cfgs, timeout=10):
 def reproduce(funcs, args_list, cfg, kind, cnt):
     """a deviation must show up a second time (generous timeout) to become a candidate: timeouts on a loaded machine are
     not evidence"""
-    n, cfg2, kind2 = differential(funcs, args_list, [] if cfg == _base() else [cfg], timeout=40)
+    n, cfg2, kind2 = differential(funcs, args_list, [] if cfg == _base() else [cfg], timeout=20 if cfg.maxprocs == 1 else 40)
     if cfg2 is None:
         cnt['flaky:' + kind] += 1
         return None, ''
@@ -450,7 +460,7 @@ def static_problems(funcs, cfg, cnt):
 
 def _enum_worker(job):
     from . import c02
-    seed, w, nworkers, tier, budget, kinst = job
+    seed, w, nworkers, tier, budget, kinst, hardcap = job
     t0 = time.time()
     rng = random.Random(seed)
     order_rng = random.Random(seed - w)        # the same order in every worker: the shards partition the sequences
@@ -472,7 +482,7 @@ def _enum_worker(job):
         if rng.random() < .1:
             cfgs.append(rng.choice(extra))
         args_list = [args, _second(args)]
-        n, cfg, kind = differential(e, args_list, cfgs)
+        n, cfg, kind = differential(e, args_list, cfgs, timeout=6)
         cnt['trees'] += 1; cnt['runs'] += n; cnt['trees:' + theme] += 1
         if cfg is not None:
             cfg, kind = reproduce(e, args_list, cfg, kind, cnt)
@@ -492,13 +502,14 @@ def _enum_worker(job):
                 cands.append(dict(theme=theme, seq='-'.join(seq), cfg=tuple(cfg), kind=kind, packed=pack((e, args_list))))
 
     complete = True
+    longest = {t: max(l for t2, l in CORE[tier] if t2 == t) for t, _ in CORE[tier]}
     for theme, length in CORE[tier]:
         seqs = sequences(theme, length)
         order_rng.shuffle(seqs)
         for seq in seqs[w::nworkers]:
-            if time.time() - t0 > budget:
+            if time.time() - t0 > hardcap:      # the enumerated part is not cut by the soft budget: coverage must not depend on the load
                 complete = False; break
-            for _ in range(kinst):
+            for _ in range(kinst + (length == longest[theme] and length > 2)):
                 one(theme, seq, True)
         if not complete:
             cnt['core-incomplete:%s%d' % (theme, length)] += 1
@@ -789,8 +800,38 @@ def _par_worker(job):
     return 'par', dict(cnt), cands
 
 
+def _robust_guarded(fn, timeout=20):
+    """exprcheck.guarded with a repeating timer: a Hang that is raised inside a weakref callback / __del__ is swallowed by
+    the interpreter ('Exception ignored in'); the next tick raises it again"""
+    import signal
+    from . import exprcheck as X
+    state = {'armed': True}
+    def handler(*a):
+        if state['armed']:
+            raise X.Hang()
+    old = signal.signal(signal.SIGALRM, handler)
+    signal.setitimer(signal.ITIMER_REAL, timeout, .5)
+    try:
+        return 'ok', fn()
+    except X.Hang:
+        state['armed'] = False
+        return 'hang', None
+    except RecursionError as e:
+        state['armed'] = False
+        return 'exception', e
+    except Exception as e:
+        state['armed'] = False
+        return 'exception', e
+    finally:
+        state['armed'] = False
+        signal.setitimer(signal.ITIMER_REAL, 0)
+        signal.signal(signal.SIGALRM, old)
+
+
 def _work(job):
     # BLAS threads are limited by the caller's environment (./check exports OMP_NUM_THREADS=1)
+    from . import exprcheck as X
+    X.guarded = _robust_guarded          # this worker process only
     try:
         return (_par_worker if job[0] == 'par' else _enum_worker)(job[1:])
     except BaseException as e:   # a crash of the harness worker must surface as such, not as a verdict
@@ -806,10 +847,11 @@ class Streams:
         quick = c.tier == 'quick'
         self.nenum = 10 if quick else 12
         self.npar = 2 if quick else 4
-        budget = budget or (38 if quick else 660)
+        budget = budget or (30 if quick else 600)
+        hardcap = 80 if quick else 1000
         seed = (c.seed * 1000003 + 0xC02) & 0x7fffffff
         jobs = [('par', seed, w, self.npar, c.tier, budget + (10 if quick else 200)) for w in range(self.npar)]
-        jobs += [('enum', seed + 17 + w, w, self.nenum, c.tier, budget, 2 if quick else 3) for w in range(self.nenum)]
+        jobs += [('enum', seed + 17 + w, w, self.nenum, c.tier, budget, 2 if quick else 3, hardcap) for w in range(self.nenum)]
         self.pool = multiprocessing.get_context('fork').Pool(len(jobs))
         self.results = [self.pool.apply_async(_work, (j,)) for j in jobs]
 
